@@ -96,7 +96,15 @@ impl UpWorld {
         match t[0] {
             "time" => {
                 env.ledger().set_timestamp(pu64(t[1]));
-                env.ledger().set_sequence_number(pu32(t[2]));
+                // the sequence number never moves backwards (ticks may have advanced it)
+                let cur = env.ledger().sequence();
+                env.ledger().set_sequence_number(cur.max(pu32(t[2])));
+                ("ok".into(), String::new())
+            }
+            "tick" => {
+                // some ledgers close (fewer than any persistent / instance entry lives): nothing observable may change
+                let cur = env.ledger().sequence();
+                env.ledger().set_sequence_number(cur + pu32(t[1]));
                 ("ok".into(), String::new())
             }
             "up.new" => {
@@ -297,6 +305,26 @@ pub fn gen_c15(run: &mut crate::Run, seed: u64, thorough: bool) {
                 }
             }
             code += stride;
+        }
+    }
+    // ---- (a2) ownership moves WHILE the migration window is open: the migration belongs to the CURRENT owner
+    for kind in KINDS.iter() {
+        for first_former in [true, false] {
+            run.scenario("up", &format!("c15-transfer-in-window-{kind}-{first_former}"));
+            run.op("time 1000 10", "time");
+            run.op(&format!("up.new {}", owner.tok()), "construct");
+            let hk = if kind == &"dummy" { "dummy" } else { "self" };
+            run.op(&format!("up.upgrade {kind} {hk} {}", owner.tok()), "upgrade-owner");
+            run.op(&format!("up.transfer_ownership {kind} {} {}", new_owner.tok(), owner.tok()), "transfer-in-window");
+            run.op(&format!("up.owner {kind}"), "q");
+            let data = if kind == &"dummy" { format!("[s{}]", hx(b"migrated")) } else { "[v]".to_string() };
+            let order = if first_former { [(&owner, "former-owner"), (&new_owner, "owner")] } else { [(&new_owner, "owner"), (&owner, "former-owner")] };
+            for (who, acl) in order {
+                run.op(&format!("up.migrate {kind} {data} {}", who.tok()), &format!("migrate-in-window-{acl}"));
+                run.op(&format!("up.flag {kind}"), "q");
+                run.op(&format!("up.version {kind}"), "q");
+                run.op(&format!("up.data {kind}"), "q");
+            }
         }
     }
     // ---- (b) other hashes and ill-typed migration data on the direct entry points
